@@ -8,6 +8,8 @@ import (
 	"go/ast"
 	"go/token"
 	"go/types"
+	"regexp"
+	"sort"
 	"strings"
 
 	"golang.org/x/tools/go/packages"
@@ -406,5 +408,180 @@ func Package(pkg *packages.Package, id string, importIDs []string, stub bool) st
 	for _, f := range pkg.Syntax {
 		e.file(f, pkg)
 	}
+	e.implSection(pkg)
 	return e.b.String()
+}
+
+// ---- @implements payload
+
+var implWord = regexp.MustCompile(`\w+`)
+
+func (e *enc) sigClass(classes *[]types.Type, sig types.Type) int {
+	for i, c := range *classes {
+		if types.Identical(c, sig) {
+			return i
+		}
+	}
+	*classes = append(*classes, sig)
+	return len(*classes) - 1
+}
+
+// withoutRecv strips the receiver so that only parameters, results and variadic-ness are compared.
+func withoutRecv(sig *types.Signature) types.Type {
+	return types.NewSignatureType(nil, nil, nil, sig.Params(), sig.Results(), sig.Variadic())
+}
+
+// implSection encodes the interfaces that @implements lines of the package may name (current package and
+// direct imports), the annotated types with their method sets, and go/types' own verdicts (the oracle).
+func (e *enc) implSection(pkg *packages.Package) {
+	words := map[string]bool{}
+	typeNames := map[string]bool{}
+	var order []string
+	for _, f := range pkg.Syntax {
+		for _, d := range f.Decls {
+			gd, ok := d.(*ast.GenDecl)
+			if !ok || gd.Tok != token.TYPE {
+				continue
+			}
+			for _, s := range gd.Specs {
+				ts, ok := s.(*ast.TypeSpec)
+				if !ok {
+					continue
+				}
+				doc := gd.Doc
+				if ts.Doc != nil {
+					doc = ts.Doc
+				}
+				if doc == nil {
+					continue
+				}
+				has := false
+				for _, c := range doc.List {
+					if strings.Contains(c.Text, "@implements") {
+						has = true
+						for _, w := range implWord.FindAllString(c.Text, -1) {
+							words[w] = true
+						}
+					}
+				}
+				if has && !typeNames[ts.Name.Name] {
+					typeNames[ts.Name.Name] = true
+					order = append(order, ts.Name.Name)
+				}
+			}
+		}
+	}
+	if len(order) == 0 || pkg.Types == nil {
+		return
+	}
+	var classes []types.Type
+	type ifc struct {
+		pkg   *types.Package
+		name  string
+		iface *types.Interface
+		named types.Type
+	}
+	var ifaces []ifc
+	scan := append([]*types.Package{pkg.Types}, pkg.Types.Imports()...)
+	var ws []string
+	for w := range words {
+		ws = append(ws, w)
+	}
+	sort.Strings(ws)
+	for _, p := range scan {
+		for _, w := range ws {
+			tn, ok := p.Scope().Lookup(w).(*types.TypeName)
+			if !ok {
+				continue
+			}
+			it, ok := tn.Type().Underlying().(*types.Interface)
+			if !ok {
+				continue
+			}
+			ifaces = append(ifaces, ifc{p, w, it.Complete(), tn.Type()})
+		}
+	}
+	e.w("IMPL")
+	e.i(len(ifaces))
+	for _, it := range ifaces {
+		e.w("IF", hx(it.pkg.Path()), hx(it.name))
+		e.i(it.iface.NumMethods())
+		for i := 0; i < it.iface.NumMethods(); i++ {
+			m := it.iface.Method(i)
+			e.w(hx(m.Id()), hx(m.Name()))
+			e.i(e.sigClass(&classes, withoutRecv(m.Type().(*types.Signature))))
+		}
+	}
+	e.i(len(order))
+	for _, name := range order {
+		obj := pkg.Types.Scope().Lookup(name)
+		tn, _ := obj.(*types.TypeName)
+		var named *types.Named
+		if tn != nil {
+			named, _ = tn.Type().(*types.Named)
+		}
+		if named == nil {
+			e.w("TY", hx(name), "0", "0")
+			e.i(0)
+			e.i(0)
+			continue
+		}
+		isIface := types.IsInterface(named)
+		e.w("TY", hx(name), "1")
+		if isIface {
+			e.w("1")
+		} else {
+			e.w("0")
+		}
+		vset := types.NewMethodSet(named)
+		mset := types.NewMethodSet(types.NewPointer(named))
+		if isIface {
+			mset = vset
+		}
+		e.i(mset.Len())
+		for i := 0; i < mset.Len(); i++ {
+			fn := mset.At(i).Obj().(*types.Func)
+			e.w(hx(fn.Id()), hx(fn.Name()))
+			e.i(e.sigClass(&classes, withoutRecv(fn.Type().(*types.Signature))))
+			if vset.Lookup(fn.Pkg(), fn.Name()) == nil {
+				e.w("1")
+			} else {
+				e.w("0")
+			}
+		}
+		e.i(2 * len(ifaces))
+		for _, it := range ifaces {
+			for _, ptr := range []bool{false, true} {
+				var v types.Type = named
+				if ptr {
+					v = types.NewPointer(named)
+				}
+				ms := types.NewMethodSet(v)
+				var missing []string
+				for i := 0; i < it.iface.NumMethods(); i++ {
+					m := it.iface.Method(i)
+					sel := ms.Lookup(m.Pkg(), m.Name())
+					if sel == nil || !types.Identical(withoutRecv(sel.Obj().Type().(*types.Signature)), withoutRecv(m.Type().(*types.Signature))) {
+						missing = append(missing, m.Name())
+					}
+				}
+				impl := types.Implements(v, it.iface)
+				e.w("GO", hx(it.pkg.Path()), hx(it.name))
+				if ptr {
+					e.w("1")
+				} else {
+					e.w("0")
+				}
+				if impl {
+					e.w("1")
+				} else {
+					e.w("0")
+				}
+				e.i(len(missing))
+				for _, m := range missing {
+					e.w(hx(m))
+				}
+			}
+		}
+	}
 }
